@@ -26,6 +26,12 @@ INSERT = ["(", ")", "{", "}", ";", "&", "|", "&&", "!", "'", "\"", "`", "$(", "f
           "in", ";;", "\n", "foo", ">", "#"]
 # tokens that mostly witness the documented differences: inserted at every 7th position only
 WITNESS = ["<<", "&>", "BAD", "$(())", "$((", "${x"]
+# Reserved words put where a COMMAND WORD is expected but no statement list starts: as a word of their own
+# (followed by a blank) right after `&&`, `||`, `|`, `|&`, `!`, `time`, `coproc` and the `()` of a function definition.
+# (The plain insertions above glue the token to its neighbour -- `fi`+`cmd` is the word `ficmd` -- so they never
+# produce a reserved word in the middle of a pipeline or and-or list.)
+RESERVED = ["then", "elif", "else", "fi", "do", "done", "esac", "in", "}"]
+CMD_WORD_AFTER = ("&&", "||", "|", "|&", "!", "time", "coproc", "()")
 
 
 def single_mutations(r):
@@ -53,6 +59,15 @@ def single_mutations(r):
             m = toks[:i] + [t] + toks[i:]
             if ok(m):
                 out.append(("ins:" + t, i + 1, m))
+    for i, t in enumerate(toks):
+        if t in CMD_WORD_AFTER:
+            j = i + 1
+            while j < len(toks) and toks[j] in ("<SP>", " "):
+                j += 1                               # the command word goes behind the blanks that follow the operator
+            for w in RESERVED:
+                m = toks[:j] + ([] if j > i + 1 else ["<SP>"]) + [w, "<SP>"] + toks[j:]
+                if ok(m):
+                    out.append(("cmdword:" + w, j + (1 if j > i + 1 else 2), m))
     return out
 
 
